@@ -76,6 +76,13 @@ structure State where
   kHash  : List (Nat × Nat) := []     -- circuit_id_map keys (MAC, j)
   acct   : AMap Nat Sess := []        -- ordinal → records
   nextSess : Nat := 1
+  /-- accounting sessions whose Stop reached the server BEFORE their Start (only an establishment raced by a
+      termination produces one, `estGap`): the RADIUS server is left with a session that never ends -/
+  early  : List Nat := []
+  /-- entries of the circuit-id index `leasesByCircuitID` that point to a lease which is NOT in the lease table:
+      (MAC, j) → the dead lease.  Only a raced establishment (`estGap`) creates one; while it is `[]` - in every
+      history of `Op` - the index says nothing the lease table does not say and is not modelled. -/
+  stale  : AMap (Nat × Nat) Lease := []
   deriving Repr
 
 def init (radius : Bool) (leaseTime : Nat) : State :=
@@ -328,6 +335,104 @@ def step (s : State) : Op → State × Reply
 
 def run (s : State) (ops : List Op) : State := ops.foldl (fun st op => (step st op).1) s
 
+/-! ### establishment is NOT atomic in the code (finding KF-dhcp4-establish-race)
+
+  handleRequest puts the lease into the table under leasesMu, drops the lock, and only then maintains the circuit-id
+  index, writes the cache entries, installs the QoS policy, allocates the NAT block and sends the Accounting-Start;
+  server4 runs one goroutine per packet.  `requestBegin` / `requestFinish` are handleRequest split at that unlock point
+  (`request_split`: together they are `request`), `estGap` runs a termination in between.  The operations of the
+  theorems (`Op`) establish atomically; `OpX` adds the raced establishment. -/
+
+/-- what handleRequest carries across the unlock point: the lease it inserted and the lease it renews (none: new session) -/
+structure Pending where
+  nl  : Lease
+  old : Option Lease
+  deriving Repr, DecidableEq
+
+/-- handleRequest up to and including the lease insert (NAK paths return `none`) -/
+def requestBegin (s : State) (mac r : Nat) (cid : Option Nat) : State × Option Pending :=
+  match AMap.lookup s.leases mac with
+  | some l =>
+    if l.ip ≠ r then (s, none)
+    else
+      let nl : Lease := { ip := r, exp := s.now + s.cfg.leaseTime, cid := keepCid cid l.cid, sess := l.sess }
+      ({ s with leases := AMap.insert s.leases mac nl }, some { nl := nl, old := some l })
+  | none =>
+    if !s.cfg.contains r then (s, none)
+    else
+      match s.pool.reserve mac r with
+      | (_, false) => (s, none)
+      | (p, true) =>
+        let nl : Lease := { ip := r, exp := s.now + s.cfg.leaseTime, cid := cid, sess := if s.radius then s.nextSess else 0 }
+        ({ s with pool := p, leases := AMap.insert s.leases mac nl, nextSess := if s.radius then s.nextSess + 1 else s.nextSess },
+         some { nl := nl, old := none })
+
+/-- the rest of handleRequest, run without any lock and without looking at the lease table again -/
+def requestFinish (s : State) (mac : Nat) (p : Pending) : State :=
+  match p.old with
+  | some l => cache (dropStale s mac l.cid p.nl.cid) mac p.nl.cid
+  | none =>
+    let s1 := cache s mac p.nl.cid
+    { s1 with qos := ins s1.qos p.nl.ip, nat := ins s1.nat p.nl.ip, acct := if s.radius then addStart s1.acct p.nl.sess mac else s1.acct, early := if s.radius && (AMap.lookup s1.acct p.nl.sess).isSome then p.nl.sess :: s1.early else s1.early }
+
+/-- the circuit-id index answers for a MAC that has no lease in the table (relayed message with a circuit-id): only a
+    stale entry can -/
+def staleHit (s : State) (mac : Nat) (cid : Option Nat) : Option Lease :=
+  match AMap.lookup s.leases mac, cid with
+  | none, some c => AMap.lookup s.stale (mac, c)
+  | _, _ => none
+
+/-- an index entry is stale only while no lease of that MAC with that circuit-id is in the table (an ACK rewrites the
+    entry, the termination of such a lease deletes it) -/
+def fixStale (s : State) : State :=
+  { s with stale := s.stale.filter fun e =>
+      match AMap.lookup s.leases e.1.1 with
+      | some l => !(l.cid == some e.1.2)
+      | none => true }
+
+/-- a REQUEST with a termination handled inside its unlock window; the Bool says whether the window was reached.
+    Afterwards the index entry of the lease's circuit-id points to the inserted lease whether or not that lease is
+    still in the table. -/
+def estGap (s : State) (mac r : Nat) (cid : Option Nat) (inner : Term) : State × Reply × Bool :=
+  let begun : State × Option Pending := match staleHit s mac cid with
+    | some l =>
+      -- the dead lease the index still holds is taken for this client's lease: a "renewal" of it
+      if l.ip ≠ r then (s, none)
+      else
+        let nl : Lease := { ip := r, exp := s.now + s.cfg.leaseTime, cid := keepCid cid l.cid, sess := l.sess }
+        ({ s with leases := AMap.insert s.leases mac nl }, some { nl := nl, old := some l })
+    | none => requestBegin s mac r cid
+  match begun with
+  | (s1, none) => (s1, .nak, false)
+  | (s1, some p) =>
+    let s2 := requestFinish (inner.run s1) mac p
+    let s3 := match p.nl.cid with
+      | some c => { s2 with stale := AMap.insert s2.stale (mac, c) p.nl }
+      | none => s2
+    (s3, .ack r, true)
+
+/-- the operations of the real server, raced establishment and its after-effects included -/
+inductive OpX where
+  | op (o : Op)
+  /-- DISCOVER with the relay's circuit-id (it matters only when the index holds a stale entry) -/
+  | disc (mac : Nat) (cid : Option Nat)
+  | estGap (mac ip : Nat) (cid : Option Nat) (inner : Term)
+  deriving Repr, DecidableEq
+
+def stepX (s : State) : OpX → State × Reply
+  | .op (.req m r cid) =>
+    match staleHit s m cid with
+    | some l => let (s', rp) := renew s m l r cid; (fixStale s', rp)
+    | none => let (s', rp) := request s m r cid; (fixStale s', rp)
+  | .op o => let (s', rp) := step s o; (fixStale s', rp)
+  | .disc m cid =>
+    match staleHit s m cid with
+    | some l => if s.now < l.exp then (s, .offer l.ip) else discover s m
+    | none => discover s m
+  | .estGap m ip cid inner => let (s', rp, _) := estGap s m ip cid inner; (fixStale s', rp)
+
+def runX (s : State) (ops : List OpX) : State := ops.foldl (fun st o => (stepX st o).1) s
+
 /-! ### monitor: observations only
 
   A `Snap` is what the harness reads back after an operation (lease table, pool, both QoS directions and the
@@ -347,6 +452,8 @@ structure Snap where
   kCid   : List (Nat × Nat) := []
   kHash  : List (Nat × Nat) := []
   acct   : List (Nat × Nat × Nat × Nat) := []          -- ordinal, mac, starts, stops
+  early  : List Nat := []                              -- sessions whose Stop arrived before their Start
+  idx    : List ((Nat × Nat) × Nat) := []              -- leasesByCircuitID: (mac, circuit-id) → address of the lease it points to
   /-- the three views of a resource disagree (egress ≠ ingress, manager table ≠ kernel map, count ≠ keys) -/
   skew   : List String := []
   deriving Repr, DecidableEq
@@ -358,6 +465,13 @@ structure Kind where
   /-- a cleanup pass is part of the operation: every lease that had run out is ended -/
   sweep : Bool := false
   shutdown : Bool := false
+  /-- the operation is a REQUEST with terminations inside its unlock window (`estgap`) that was ACKed: the session
+      (MAC, address) it establishes, or renews, is there for the terminations to end -/
+  established : Option (Nat × Nat) := none
+  /-- MACs (and their addresses) whose establishment was raced by a termination that ended the session, earlier in
+      this sequence or in this operation: the clause of KF-dhcp4-establish-race is keyed to them -/
+  racedMacs : List Nat := []
+  racedAddrs : List Nat := []
   deriving Repr, DecidableEq
 
 def Kind.isTermination (k : Kind) : Bool := !k.terms.isEmpty || k.sweep || k.shutdown
@@ -369,15 +483,28 @@ def Snap.live (p : Snap) (ip : Nat) : Bool := p.leases.any (fun e => e.2.1 == ip
 
 def Snap.binds (p : Snap) (mac : Nat) : Bool := p.bound.any (fun b => b.1 == mac)
 
+/-- entries no lease of the snapshot accounts for (`dead`: every session counts as ended, as after a shutdown) -/
+def Snap.orphanNat (p : Snap) (dead : Bool) : List Nat := p.nat.filter fun a => dead || !(p.live a)
+def Snap.orphanQos (p : Snap) (dead : Bool) : List Nat := p.qos.filter fun a => dead || !(p.live a)
+def Snap.orphanMac (p : Snap) (dead : Bool) : List Nat := p.kMac.filter fun m => dead || (p.leaseOf m).isNone
+def Snap.hasCid (p : Snap) (c : Nat × Nat) : Bool := p.leases.any fun e => e.1 == c.1 && e.2.2.2 == some c.2
+def Snap.orphanCid (p : Snap) (dead : Bool) : List (Nat × Nat) := p.kCid.filter fun c => dead || !(p.hasCid c)
+def Snap.orphanHash (p : Snap) (dead : Bool) : List (Nat × Nat) := p.kHash.filter fun c => dead || !(p.hasCid c)
+def Snap.orphanIdx (p : Snap) (dead : Bool) : List (Nat × Nat) := (p.idx.map (·.1)).filter fun c => dead || !(p.hasCid c)
+
 /-- the sessions an operation is meant to end, judged from the snapshot BEFORE it: (mac, ip, path) -/
 def ended (before : Snap) (k : Kind) : List (Nat × Nat × String) :=
   if k.shutdown then before.leases.map fun (m, ip, _, _) => (m, ip, "shutdown") else
-  let byMsg := before.leases.filterMap fun (m, ip, _, _) =>
+  -- a session the operation itself establishes (or renews) before its terminations run counts as there
+  let leases := match k.established with
+    | some (m, ip) => (m, ip, before.now, none) :: before.leases.filter (fun e => !(e.1 == m))
+    | none => before.leases
+  let byMsg := leases.filterMap fun (m, ip, _, _) =>
     if k.terms.any (fun t => t.1 == m && t.2.isNone) then some (m, ip, "RELEASE")
     else if k.terms.any (fun t => t.1 == m && t.2 == some ip) then some (m, ip, "DECLINE")   -- only the held address
     else none
   let byTime := if k.sweep then
-      before.leases.filterMap fun (m, ip, exp, _) => if before.now > exp then some (m, ip, "expiry") else none
+      leases.filterMap fun (m, ip, exp, _) => if before.now > exp then some (m, ip, "expiry") else none
     else []
   byMsg ++ byTime.filter (fun e => !(byMsg.any (fun b => b.1 == e.1)))
 
@@ -389,24 +516,20 @@ def offerOnly (before : Snap) (mac : Nat) : Bool := (before.leaseOf mac).isNone 
     mechanism-specific clause holds on these two snapshots -/
 def monitor (before after : Snap) (k : Kind) : List (String × String × String) :=
   let es := ended before k
-  let cl := if k.shutdown then "KF-dhcp4-shutdown-residue" else "none"
+  -- the clause of KF-dhcp4-establish-race is keyed to the MAC whose REQUEST was raced
+  let raced := fun (m : Nat) => k.racedMacs.contains m || (match k.established with
+    | some (em, _) => em == m
+    | none => false)
+  let clOf := fun (m : Nat) =>
+    if k.shutdown then "KF-dhcp4-shutdown-residue" else if raced m then "KF-dhcp4-establish-race" else "none"
   let vEnd := es.foldl (fun acc (m, ip, path) =>
+    let cl := if !k.shutdown && k.racedAddrs.contains ip then "KF-dhcp4-establish-race" else clOf m
     acc ++
     (if (after.leaseOf m).isSome || after.binds m then
        [("addr-not-returned", cl, s!"after {path} m{m} still holds a{ip} (lease or pool binding)")]
      else if !(after.free.contains ip) && !(after.unavail.contains ip) then
        [("addr-not-returned", cl, s!"after {path} of m{m} the address a{ip} is neither free nor quarantined")]
      else []) ++
-    (if after.nat.contains ip && (k.shutdown || !(after.live ip)) then
-       [("nat-residue", cl, s!"after {path} of m{m} the NAT block of a{ip} is still allocated")] else []) ++
-    (if after.qos.contains ip && (k.shutdown || !(after.live ip)) then
-       [("qos-residue", cl, s!"after {path} of m{m} the QoS policy of a{ip} is still installed")] else []) ++
-    (if after.kMac.contains m then
-       [("cache-residue", cl, s!"mac: after {path} subscriber_pools still answers for m{m}")] else []) ++
-    (if after.kCid.any (fun c => c.1 == m) then
-       [("cache-residue", cl, s!"circuit: after {path} circuit_id_subscribers still answers for m{m}")] else []) ++
-    (if after.kHash.any (fun c => c.1 == m) then
-       [("cache-residue", cl, s!"circuit: after {path} circuit_id_map still answers for m{m}")] else []) ++
     -- accounting: a session of this MAC that was open before (a Start, no Stop) must now have its Stop
     ((before.acct.filter (fun (_, am, st, sp) => am == m && st > 0 && sp == 0)).foldl (fun a2 (o, _, _, _) =>
        match after.acct.find? (fun r => r.1 == o) with
@@ -414,17 +537,47 @@ def monitor (before after : Snap) (k : Kind) : List (String × String × String)
          if sp == 0 then a2 ++ [("missing-stop", cl, s!"after {path} of m{m} session {o} has a Start and no Accounting-Stop")]
          else a2
        | none => a2 ++ [("missing-stop", cl, s!"the records of session {o} vanished")]) [])) []
-  -- whatever the operation: the server never writes the VLAN map, no session gets a second Stop or a Stop without a Start
+  -- whatever the operation: an entry that no lease accounts for any more (or never did) and that was not already an
+  -- orphan before the operation is residue of this operation; after a shutdown every session counts as ended
+  let pathOf := fun (m : Nat) => match es.find? (fun e => e.1 == m) with
+    | some e => s!"after {e.2.2} of m{m}"
+    | none => s!"m{m}"
+  let ownerOf := fun (ip : Nat) => match before.leases.find? (fun e => e.2.1 == ip) with
+    | some e => e.1
+    | none => match k.established with
+      | some (em, eip) => if eip == ip then em else 0
+      | none => 0
+  let vNat := (after.orphanNat k.shutdown).foldl (fun acc a =>
+    if (before.orphanNat false).contains a then acc else
+      acc ++ [("nat-residue", clOf (ownerOf a), s!"{pathOf (ownerOf a)}: the NAT block of a{a} is allocated and no lease holds a{a}")]) []
+  let vQos := (after.orphanQos k.shutdown).foldl (fun acc a =>
+    if (before.orphanQos false).contains a then acc else
+      acc ++ [("qos-residue", clOf (ownerOf a), s!"{pathOf (ownerOf a)}: the QoS policy of a{a} is installed and no lease holds a{a}")]) []
+  let vMac := (after.orphanMac k.shutdown).foldl (fun acc m =>
+    if (before.orphanMac false).contains m then acc else
+      acc ++ [("cache-residue", clOf m, s!"mac: {pathOf m}: subscriber_pools answers for m{m}, which has no lease")]) []
+  let vCid := (after.orphanCid k.shutdown).foldl (fun acc c =>
+    if (before.orphanCid false).contains c then acc else
+      acc ++ [("cache-residue", clOf c.1, s!"circuit: {pathOf c.1}: circuit_id_subscribers answers for m{c.1}.c{c.2}, which is not the circuit-id of a lease of m{c.1}")]) []
+  let vHash := (after.orphanHash k.shutdown).foldl (fun acc c =>
+    if (before.orphanHash false).contains c then acc else
+      acc ++ [("cache-residue", clOf c.1, s!"circuit: {pathOf c.1}: circuit_id_map answers for m{c.1}.c{c.2}, which is not the circuit-id of a lease of m{c.1}")]) []
+  let vIdx := (after.orphanIdx k.shutdown).foldl (fun acc c =>
+    if (before.orphanIdx false).contains c then acc else
+      acc ++ [("index-residue", clOf c.1, s!"{pathOf c.1}: leasesByCircuitID answers for m{c.1}.c{c.2} with a lease that is not in the lease table")]) []
+  -- the server never writes the VLAN map, no session gets a second Stop or a Stop without a Start
   let vVlan := if after.kVlan.isEmpty then [] else
     [("cache-residue", "none", s!"vlan: vlan_subscriber_pools has entries {after.kVlan}")]
   let vAcct := after.acct.foldl (fun acc (o, m, st, sp) =>
     let was := ((before.acct.find? (fun r => r.1 == o)).map (fun r => r.2.2.2)).getD 0
     acc ++
-    (if sp > 1 && sp > was then [("double-stop", "none", s!"session {o} of m{m} has {sp} Accounting-Stops")] else []) ++
-    (if sp > 0 && st == 0 && sp > was then [("stop-unstarted", "none", s!"session {o} of m{m} has an Accounting-Stop and no Start")] else [])) []
+    (if sp > 1 && sp > was then [("double-stop", clOf m, s!"session {o} of m{m} has {sp} Accounting-Stops")] else []) ++
+    (if sp > 0 && st == 0 && sp > was then [("stop-unstarted", "none", s!"session {o} of m{m} has an Accounting-Stop and no Start")] else []) ++
+    (if after.early.contains o && !(before.early.contains o) then
+       [("stop-unstarted", clOf m, s!"the Accounting-Stop of session {o} of m{m} was issued before its Start: the session stays open at the RADIUS server")] else [])) []
   -- a termination that finds no session to end (the MAC has no lease any more, nothing has expired): nothing may change
   let vSecond :=
-    if k.isTermination && es.isEmpty && ({ after with now := 0 } != { before with now := 0 }) then
+    if k.isTermination && k.established.isNone && es.isEmpty && ({ after with now := 0 } != { before with now := 0 }) then
       [("second-end-effect", "none", "a termination that had no session to end changed the state")]
     else []
   -- the offer-only prefix: a RELEASE/DECLINE from a MAC that holds a pool binding and no lease
@@ -433,6 +586,6 @@ def monitor (before after : Snap) (k : Kind) : List (String × String × String)
       acc ++ [("addr-not-returned", "KF-dhcp4-offer-pinned", s!"m{m} released/declined after DISCOVER only and keeps its pool binding")]
     else acc) []
   let vSkew := after.skew.map fun t => ("view-skew", "none", t)
-  vEnd ++ vVlan ++ vAcct ++ vSecond ++ vOffer ++ vSkew
+  vEnd ++ vNat ++ vQos ++ vMac ++ vCid ++ vHash ++ vIdx ++ vVlan ++ vAcct ++ vSecond ++ vOffer ++ vSkew
 
 end Bng.DhcpTerm
